@@ -30,6 +30,8 @@ type Field struct {
 	V   uint64 // varint / fixed value
 	B   []byte // length-delimited payload (when Sub == nil)
 	Sub *Msg   // length-delimited payload that is a known embedded message
+	// Raw, when non-nil, replaces the whole encoding of this field (hostile inputs)
+	Raw []byte
 	// encoding liberties
 	LenPad int // extra bytes for a non-minimal length varint
 	TagPad int // extra bytes for a non-minimal tag varint
@@ -81,6 +83,10 @@ func ReadVarint(b []byte) (uint64, int, error) {
 func (m *Msg) Encode() []byte {
 	var b []byte
 	for _, f := range m.F {
+		if f.Raw != nil {
+			b = append(b, f.Raw...)
+			continue
+		}
 		b = AppendVarint(b, f.Num<<3|uint64(f.WT), f.TagPad)
 		switch f.WT {
 		case WTVarint:
